@@ -2,6 +2,7 @@ package main
 
 import (
 	"bytes"
+	"regexp"
 	"fmt"
 	"go/ast"
 	"go/printer"
@@ -122,6 +123,15 @@ type inliner struct {
 	addImports map[string]map[string]string
 	inlinedAll map[*types.Func]int // calls inlined
 	unrolled   int
+	exprInlined int
+	scalarised  int
+	inReturnExpr bool
+	substRecv   bool   // current call: the receiver is substituted, not bound
+	substParam  []bool // current call: per parameter
+	// a package-level type whose name is taken by a local of the caller is addressed through a
+	// file-level alias in the expanded text
+	aliasDecls map[string]map[string]bool    // file -> "type X__inlT = X"
+	renames    map[*ast.FuncDecl]map[types.Object]string // current call: object -> alias name
 }
 
 func (il *inliner) text(n ast.Node) string {
@@ -209,6 +219,17 @@ func (il *inliner) bodyOK(fd *ast.FuncDecl, self *types.Func) (defers []*ast.Def
 // typeText: source text of a type expression of the callee's signature, valid at the call
 // site when the package names it uses mean the same there.
 func (il *inliner) typeText(e ast.Expr) string { return exprString(il.fset, e) }
+
+// typeTextFor: the type text with captured type names replaced by their aliases.
+func (il *inliner) typeTextFor(fd *ast.FuncDecl, t string) string {
+	for obj, alias := range il.renames[fd] {
+		if _, isType := obj.(*types.TypeName); !isType && !il.inReturnExpr {
+			continue
+		}
+		t = regexp.MustCompile(`(^|[^A-Za-z0-9_.])`+regexp.QuoteMeta(obj.Name())+`($|[^A-Za-z0-9_])`).ReplaceAllString(t, "${1}"+alias+"${2}")
+	}
+	return t
+}
 
 type calleeShape struct {
 	recvName string
@@ -357,7 +378,19 @@ func (il *inliner) captureFree(fd *ast.FuncDecl, call *ast.CallExpr, callerFile 
 					}
 					_, lo := inner.LookupParent(id.Name, call.Pos())
 					if lo != obj {
-						okAll, why = false, "identifier "+id.Name+" is captured by a local of the caller"
+						if tn, isType := obj.(*types.TypeName); isType && parent == il.pkg.Types.Scope() {
+							alias := tn.Name() + "__inlT"
+							if il.aliasDecls[callerFileName] == nil {
+								il.aliasDecls[callerFileName] = map[string]bool{}
+							}
+							il.aliasDecls[callerFileName]["type "+alias+" = "+tn.Name()] = true
+							if il.renames[fd] == nil {
+								il.renames[fd] = map[types.Object]string{}
+							}
+							il.renames[fd][obj] = alias
+						} else {
+							okAll, why = false, "identifier "+id.Name+" is captured by a local of the caller"
+						}
 					}
 				}
 			}
@@ -387,6 +420,17 @@ func (il *inliner) rewriteBody(fd *ast.FuncDecl, sh calleeShape, label string, d
 			}
 		}
 		return sb.String()
+	}
+	if rn := il.renames[fd]; len(rn) > 0 {
+		ast.Inspect(fd.Body, func(m ast.Node) bool {
+			if id, ok := m.(*ast.Ident); ok {
+				if alias, ok := rn[il.pkg.TypesInfo.Uses[id]]; ok {
+					s, e := il.fset.Position(id.Pos()).Offset, il.fset.Position(id.End()).Offset
+					edits = append(edits, inlineEdit{s, e, alias})
+				}
+			}
+			return true
+		})
 	}
 	var walk func(n ast.Node)
 	walk = func(n ast.Node) {
@@ -421,9 +465,11 @@ func (il *inliner) rewriteBody(fd *ast.FuncDecl, sh calleeShape, label string, d
 				sb.WriteString("{ ")
 				if len(x.Results) > 0 {
 					var rs []string
+					il.inReturnExpr = true
 					for _, r := range x.Results {
-						rs = append(rs, il.text(r))
+						rs = append(rs, il.typeTextFor(fd, il.text(r)))
 					}
+					il.inReturnExpr = false
 					if len(sh.results) > 0 {
 						sb.WriteString(strings.Join(sh.results, ", ") + " = " + strings.Join(rs, ", ") + "; ")
 					}
@@ -438,6 +484,23 @@ func (il *inliner) rewriteBody(fd *ast.FuncDecl, sh calleeShape, label string, d
 		})
 	}
 	walk(fd.Body)
+	// an identifier edit inside a rewritten return / defer is covered by that edit's own text
+	sort.Slice(edits, func(i, j int) bool {
+		if edits[i].start != edits[j].start {
+			return edits[i].start < edits[j].start
+		}
+		return edits[i].end > edits[j].end
+	})
+	var kept []inlineEdit
+	lastEnd := -1
+	for _, e := range edits {
+		if e.start < lastEnd {
+			continue
+		}
+		kept = append(kept, e)
+		lastEnd = e.end
+	}
+	edits = kept
 	sort.Slice(edits, func(i, j int) bool { return edits[i].start > edits[j].start })
 	body := append([]byte{}, src[lb:rb]...)
 	for _, e := range edits {
@@ -474,7 +537,9 @@ func (il *inliner) buildBlock(fd *ast.FuncDecl, obj *types.Func, call *ast.CallE
 	sb.WriteString("{ ")
 	// stage 1: evaluate receiver and arguments left to right into temporaries
 	var tmpNames []string
-	if sh.recvName != "" {
+	if sh.recvName != "" && il.substRecv {
+		tmpNames = append(tmpNames, "")
+	} else if sh.recvName != "" {
 		se, isSel := call.Fun.(*ast.SelectorExpr)
 		if !isSel {
 			return "", "", "", false
@@ -502,6 +567,10 @@ func (il *inliner) buildBlock(fd *ast.FuncDecl, obj *types.Func, call *ast.CallE
 		return "", "", "", false // f(g()) with a multi-value g: not handled
 	}
 	for i := 0; i < nfixed; i++ {
+		if i < len(il.substParam) && il.substParam[i] {
+			tmpNames = append(tmpNames, "")
+			continue
+		}
 		t := fmt.Sprintf("a__inl%d_%d", id, i)
 		sb.WriteString(fmt.Sprintf("var %s %s = %s; ", t, sh.ptypes[i], il.text(call.Args[i])))
 		tmpNames = append(tmpNames, t)
@@ -529,10 +598,15 @@ func (il *inliner) buildBlock(fd *ast.FuncDecl, obj *types.Func, call *ast.CallE
 	// stage 2: bind the callee's own names
 	k := 0
 	if sh.recvName != "" {
-		sb.WriteString(fmt.Sprintf("var %s %s = %s; _ = %s; ", sh.recvName, sh.recvType, tmpNames[k], sh.recvName))
+		if tmpNames[k] != "" {
+			sb.WriteString(fmt.Sprintf("var %s %s = %s; _ = %s; ", sh.recvName, sh.recvType, tmpNames[k], sh.recvName))
+		}
 		k++
 	}
 	for i, p := range sh.params {
+		if tmpNames[k+i] == "" {
+			continue
+		}
 		sb.WriteString(fmt.Sprintf("var %s %s = %s; _ = %s; ", p, sh.ptypes[i], tmpNames[k+i], p))
 	}
 	// results inside the block
@@ -624,7 +698,18 @@ func (il *inliner) stmtEdit(stmt ast.Stmt, file *ast.File) (string, bool) {
 		if tail && sh.namedRes {
 			tail = false
 		}
+		il.planSubst(fd, call)
+		if len(il.renames[fd]) > 0 {
+			sh.recvType = il.typeTextFor(fd, sh.recvType)
+			for i := range sh.ptypes {
+				sh.ptypes[i] = il.typeTextFor(fd, sh.ptypes[i])
+			}
+			for i := range sh.rtypes {
+				sh.rtypes[i] = il.typeTextFor(fd, sh.rtypes[i])
+			}
+		}
 		pre, block, results, ok := il.buildBlock(fd, fn, call, id, defers, sh, tail)
+		delete(il.renames, fd)
 		if !ok {
 			return "", false
 		}
@@ -711,6 +796,11 @@ func (il *inliner) run() {
 			if s == nil {
 				return
 			}
+			if es := il.exprHelperEdits(s, f); len(es) > 0 {
+				il.edits[file] = append(il.edits[file], es...)
+				il.exprInlined += len(es)
+				return // the statement itself is looked at again in the next round
+			}
 			if t, ok := il.stmtEdit(s, f); ok {
 				st, en := il.fset.Position(s.Pos()).Offset, il.fset.Position(s.End()).Offset
 				il.edits[file] = append(il.edits[file], inlineEdit{st, en, t})
@@ -773,6 +863,19 @@ func (il *inliner) run() {
 			visitList(fd.Body.List)
 		}
 	}
+	if len(il.edits) == 0 && il.exprInlined == 0 {
+		// nothing left to expand in this package: undo "locals grouped into a struct"
+		for _, f := range il.pkg.Syntax {
+			file := il.fset.Position(f.Pos()).Filename
+			for _, d := range f.Decls {
+				if fd, ok := d.(*ast.FuncDecl); ok && fd.Body != nil {
+					if es := il.scalarise(fd); len(es) > 0 {
+						il.edits[file] = append(il.edits[file], es...)
+					}
+				}
+			}
+		}
+	}
 }
 
 // buildInlinedOverlay: one round of inlining over all jiva packages.  base is the overlay the
@@ -799,7 +902,7 @@ func buildInlinedOverlay(pkgs []*packages.Package, base map[string][]byte) *inli
 		if !isJivaPkg(p.Types) || strings.Contains(p.PkgPath, "/tests/") {
 			return
 		}
-		il := &inliner{pkg: p, fset: p.Fset, src: map[string][]byte{}, fresh: map[*types.Func]*ast.FuncDecl{}, edits: map[string][]inlineEdit{}, addImports: map[string]map[string]string{}, inlinedAll: map[*types.Func]int{}}
+		il := &inliner{pkg: p, fset: p.Fset, src: map[string][]byte{}, fresh: map[*types.Func]*ast.FuncDecl{}, edits: map[string][]inlineEdit{}, addImports: map[string]map[string]string{}, inlinedAll: map[*types.Func]int{}, aliasDecls: map[string]map[string]bool{}, renames: map[*ast.FuncDecl]map[types.Object]string{}}
 		any := false
 		for fn, fd := range fresh {
 			if fn.Pkg() == p.Types {
@@ -834,6 +937,11 @@ func buildInlinedOverlay(pkgs []*packages.Package, base map[string][]byte) *inli
 			res.Count += n
 		}
 		res.Notes = append(res.Notes, il.notes...)
+		res.Count += il.exprInlined
+		if il.scalarised > 0 {
+			res.Count += il.scalarised
+			res.Notes = append(res.Notes, fmt.Sprintf("%d local aggregate(s) of a new struct type replaced by one local per field in package %s", il.scalarised, short(p.PkgPath)))
+		}
 		if il.unrolled > 0 {
 			res.Count += il.unrolled
 			res.Notes = append(res.Notes, fmt.Sprintf("%d range loop(s) over a small literal unrolled in package %s", il.unrolled, short(p.PkgPath)))
@@ -862,6 +970,16 @@ func buildInlinedOverlay(pkgs []*packages.Package, base map[string][]byte) *inli
 			}
 			if imps := il.addImports[file]; len(imps) > 0 {
 				src = addImportsToSource(src, imps)
+			}
+			if ds := il.aliasDecls[file]; len(ds) > 0 {
+				var names []string
+				for d := range ds {
+					if !bytes.Contains(src, []byte(d)) {
+						names = append(names, d)
+					}
+				}
+				sort.Strings(names)
+				src = append(src, []byte("\n"+strings.Join(names, "\n")+"\n")...)
 			}
 			res.Overlay[file] = src
 		}
@@ -901,7 +1019,7 @@ func inlinedView(P *Prog) (*Prog, []string) {
 	cur := P
 	overlay := P.Overlay
 	var last *Prog
-	for round := 0; round < 3; round++ {
+	for round := 0; round < 6; round++ {
 		r := buildInlinedOverlay(cur.Pkgs, overlay)
 		notes = append(notes, r.Notes...)
 		if r.Count == 0 {
@@ -1192,7 +1310,8 @@ func (il *inliner) unrollRange(rs *ast.RangeStmt, fd *ast.FuncDecl) (string, boo
 						bad = true
 					}
 				case token.GOTO:
-					bad = true
+					// the body defines no label (checked above): the target lies outside the loop,
+					// and jumping there from each unrolled copy is what the loop did
 				}
 			case *ast.AssignStmt:
 				for _, l := range y.Lhs {
@@ -1253,4 +1372,707 @@ func (il *inliner) unrollRange(rs *ast.RangeStmt, fd *ast.FuncDecl) (string, boo
 	}
 	sb.WriteString("}")
 	return sb.String(), true
+}
+
+// ---------------------------------------------------------------------------
+// Expression helpers: a fresh function whose whole body is `return <expr>` (one result, no
+// statement before it) called with side-effect-free arguments is replaced, wherever the call
+// stands, by the expression with the parameters replaced by the argument texts.
+// ---------------------------------------------------------------------------
+
+func pureArg(e ast.Expr) bool {
+	ok := true
+	ast.Inspect(e, func(n ast.Node) bool {
+		switch x := n.(type) {
+		case *ast.CallExpr:
+			// conversions and len/cap are fine
+			if id, isID := x.Fun.(*ast.Ident); isID && (id.Name == "len" || id.Name == "cap" || id.Name == "int" || id.Name == "int64" || id.Name == "uint16" || id.Name == "uint64" || id.Name == "string") {
+				return true
+			}
+			ok = false
+		case *ast.FuncLit, *ast.CompositeLit:
+			ok = false
+		case *ast.UnaryExpr:
+			if x.Op == token.ARROW {
+				ok = false
+			}
+		}
+		return true
+	})
+	return ok
+}
+
+func (il *inliner) paramObjs(fd *ast.FuncDecl) (recv *types.Var, params []*types.Var) {
+	info := il.pkg.TypesInfo
+	if fd.Recv != nil && len(fd.Recv.List) == 1 && len(fd.Recv.List[0].Names) == 1 {
+		recv, _ = info.Defs[fd.Recv.List[0].Names[0]].(*types.Var)
+	}
+	if fd.Type.Params != nil {
+		for _, f := range fd.Type.Params.List {
+			if len(f.Names) == 0 {
+				params = append(params, nil)
+			}
+			for _, n := range f.Names {
+				v, _ := info.Defs[n].(*types.Var)
+				params = append(params, v)
+			}
+		}
+	}
+	return
+}
+
+// assignsOrEscapes: the callee assigns obj (or a field of it through a value), or takes its address.
+func (il *inliner) assignsOrEscapes(fd *ast.FuncDecl, obj *types.Var, allowFieldStores bool) bool {
+	info := il.pkg.TypesInfo
+	bad := false
+	isObj := func(e ast.Expr) bool {
+		id, ok := ast.Unparen(e).(*ast.Ident)
+		return ok && info.Uses[id] == types.Object(obj)
+	}
+	rootIsObj := func(e ast.Expr) bool {
+		for {
+			switch x := ast.Unparen(e).(type) {
+			case *ast.SelectorExpr:
+				e = x.X
+				continue
+			case *ast.IndexExpr:
+				e = x.X
+				continue
+			case *ast.StarExpr:
+				e = x.X
+				continue
+			}
+			return isObj(e)
+		}
+	}
+	ast.Inspect(fd.Body, func(n ast.Node) bool {
+		switch x := n.(type) {
+		case *ast.AssignStmt:
+			for _, l := range x.Lhs {
+				if isObj(l) {
+					bad = true
+				} else if !allowFieldStores && rootIsObj(l) {
+					bad = true
+				}
+			}
+		case *ast.IncDecStmt:
+			if isObj(x.X) || (!allowFieldStores && rootIsObj(x.X)) {
+				bad = true
+			}
+		case *ast.UnaryExpr:
+			if x.Op == token.AND && rootIsObj(x.X) {
+				bad = true
+			}
+		case *ast.RangeStmt:
+			if (x.Key != nil && isObj(x.Key)) || (x.Value != nil && isObj(x.Value)) {
+				bad = true
+			}
+		case *ast.FuncLit:
+			// captured by a literal: keep the binding
+			ast.Inspect(x, func(m ast.Node) bool {
+				if id, ok := m.(*ast.Ident); ok && info.Uses[id] == types.Object(obj) {
+					bad = true
+				}
+				return true
+			})
+			return false
+		}
+		return true
+	})
+	return bad
+}
+
+func (il *inliner) exprHelperEdits(stmt ast.Stmt, file *ast.File) []inlineEdit {
+	info := il.pkg.TypesInfo
+	var out []inlineEdit
+	var visit func(n ast.Node)
+	visit = func(n ast.Node) {
+		ast.Inspect(n, func(m ast.Node) bool {
+			switch x := m.(type) {
+			case *ast.FuncLit:
+				return false
+			case *ast.BlockStmt:
+				if m != n {
+					return false // nested statements are visited on their own
+				}
+			case *ast.CallExpr:
+				var id *ast.Ident
+				var recvExpr ast.Expr
+				switch f := ast.Unparen(x.Fun).(type) {
+				case *ast.Ident:
+					id = f
+				case *ast.SelectorExpr:
+					id = f.Sel
+					if sel := info.Selections[f]; sel != nil {
+						if sel.Kind() != types.MethodVal || len(sel.Index()) > 1 {
+							return true
+						}
+						if _, isIface := sel.Recv().Underlying().(*types.Interface); isIface {
+							return true
+						}
+						recvExpr = f.X
+					}
+				}
+				if id == nil {
+					return true
+				}
+				fn, _ := info.Uses[id].(*types.Func)
+				fd := il.fresh[fn]
+				if fn == nil || fd == nil || len(fd.Body.List) != 1 {
+					return true
+				}
+				ret, ok := fd.Body.List[0].(*ast.ReturnStmt)
+				if !ok || len(ret.Results) != 1 || fd.Type.Results == nil || len(fd.Type.Results.List) != 1 || len(fd.Type.Results.List[0].Names) > 0 {
+					return true
+				}
+				if fd.Type.Params != nil {
+					for _, f := range fd.Type.Params.List {
+						if _, isEl := f.Type.(*ast.Ellipsis); isEl {
+							return true
+						}
+					}
+				}
+				recvObj, params := il.paramObjs(fd)
+				if len(params) != len(x.Args) || (recvObj != nil) != (recvExpr != nil) {
+					return true
+				}
+				// arguments: side-effect free (they are duplicated / reordered)
+				for _, a := range x.Args {
+					if !pureArg(a) {
+						return true
+					}
+				}
+				if recvExpr != nil && !pureArg(recvExpr) {
+					return true
+				}
+				// a nested call of a function in the returned expression other than pure built-ins
+				// is fine (evaluated once, in place), but a function literal is not
+				hasLit := false
+				ast.Inspect(ret.Results[0], func(k ast.Node) bool {
+					if _, ok := k.(*ast.FuncLit); ok {
+						hasLit = true
+					}
+					return true
+				})
+				if hasLit {
+					return true
+				}
+				sh := il.shapeOf(fd, 0)
+				if ok, _ := il.captureFree(fd, x, file, sh); !ok {
+					return true
+				}
+				if len(il.renames[fd]) > 0 {
+					delete(il.renames, fd)
+					return true // type-name capture: leave to the statement inliner
+				}
+				// substitute
+				subst := map[types.Object]string{}
+				if recvObj != nil {
+					rt := il.text(recvExpr)
+					xt := info.TypeOf(recvExpr)
+					_, xIsPtr := xt.Underlying().(*types.Pointer)
+					_, rIsPtr := recvObj.Type().Underlying().(*types.Pointer)
+					switch {
+					case rIsPtr && !xIsPtr:
+						rt = "(&" + rt + ")"
+					case !rIsPtr && xIsPtr:
+						rt = "(*" + rt + ")"
+					default:
+						rt = "(" + rt + ")"
+					}
+					subst[recvObj] = rt
+				}
+				for i, p := range params {
+					if p != nil {
+						subst[p] = "(" + il.text(x.Args[i]) + ")"
+					}
+				}
+				// typed constants: an untyped constant argument keeps its meaning only inside a
+				// conversion to the parameter's type
+				for i, p := range params {
+					if p == nil {
+						continue
+					}
+					if tv, ok := info.Types[x.Args[i]]; ok && tv.Value != nil {
+						subst[p] = sh.ptypes[i] + "(" + il.text(x.Args[i]) + ")"
+						if strings.ContainsAny(sh.ptypes[i], "*[] ") {
+							return true
+						}
+					}
+				}
+				efile := il.fset.Position(ret.Pos()).Filename
+				src := il.src[efile]
+				rs, re := il.fset.Position(ret.Results[0].Pos()).Offset, il.fset.Position(ret.Results[0].End()).Offset
+				var es []inlineEdit
+				ast.Inspect(ret.Results[0], func(k ast.Node) bool {
+					if kid, ok := k.(*ast.Ident); ok {
+						if t, ok := subst[info.Uses[kid]]; ok {
+							es = append(es, inlineEdit{il.fset.Position(kid.Pos()).Offset - rs, il.fset.Position(kid.End()).Offset - rs, t})
+						}
+					}
+					return true
+				})
+				sort.Slice(es, func(i, j int) bool { return es[i].start > es[j].start })
+				expr := append([]byte{}, src[rs:re]...)
+				for _, e := range es {
+					expr = append(expr[:e.start], append([]byte(e.text), expr[e.end:]...)...)
+				}
+				cs, ce := il.fset.Position(x.Pos()).Offset, il.fset.Position(x.End()).Offset
+				out = append(out, inlineEdit{cs, ce, "(" + string(expr) + ")"})
+				il.inlinedAll[fn]++
+				return false
+			}
+			return true
+		})
+	}
+	// the expressions of this statement only (not of nested statements)
+	switch x := stmt.(type) {
+	case *ast.IfStmt:
+		if x.Init != nil {
+			visit(x.Init)
+		}
+		visit(x.Cond)
+	case *ast.ForStmt:
+		if x.Cond != nil {
+			visit(x.Cond)
+		}
+	case *ast.SwitchStmt:
+		if x.Tag != nil {
+			visit(x.Tag)
+		}
+	case *ast.RangeStmt:
+		visit(x.X)
+	case *ast.ExprStmt, *ast.AssignStmt, *ast.ReturnStmt, *ast.IncDecStmt, *ast.SendStmt, *ast.DeclStmt, *ast.GoStmt, *ast.DeferStmt:
+		// a statement that IS a call of a fresh function is the statement inliner's business
+		if es, ok := x.(*ast.ExprStmt); ok {
+			if c, ok := ast.Unparen(es.X).(*ast.CallExpr); ok {
+				for _, a := range c.Args {
+					visit(a)
+				}
+				return out
+			}
+		}
+		visit(x)
+	case *ast.CaseClause:
+		for _, e := range x.List {
+			visit(e)
+		}
+	}
+	return out
+}
+
+// planSubst: parameters (and the receiver) of struct / pointer-to-struct type whose argument is
+// a plain local variable (or its address) and which the callee neither re-assigns nor lets
+// escape are not bound to a copy: the callee's uses of the parameter are rewritten to the
+// caller's variable.  This keeps a local aggregate a local aggregate (see scalarise).
+func (il *inliner) planSubst(fd *ast.FuncDecl, call *ast.CallExpr) {
+	info := il.pkg.TypesInfo
+	il.substRecv, il.substParam = false, nil
+	recvObj, params := il.paramObjs(fd)
+	il.substParam = make([]bool, len(params))
+	localIdent := func(e ast.Expr) (*ast.Ident, bool, bool) { // ident, isAddrOf, ok
+		addr := false
+		e = ast.Unparen(e)
+		if u, ok := e.(*ast.UnaryExpr); ok && u.Op == token.AND {
+			addr = true
+			e = ast.Unparen(u.X)
+		}
+		id, ok := e.(*ast.Ident)
+		if !ok {
+			return nil, false, false
+		}
+		v, ok := info.Uses[id].(*types.Var)
+		if !ok || v.Parent() == nil || v.Parent() == il.pkg.Types.Scope() || v.IsField() {
+			return nil, false, false
+		}
+		return id, addr, true
+	}
+	structish := func(t types.Type) (isPtr bool, ok bool) {
+		if p, isP := t.Underlying().(*types.Pointer); isP {
+			t, isPtr = p.Elem(), true
+		}
+		n, isN := t.(*types.Named)
+		if !isN {
+			return false, false
+		}
+		_, isS := n.Underlying().(*types.Struct)
+		return isPtr, isS
+	}
+	seen := map[string]int{}
+	note := func(e ast.Expr) {
+		if id, _, ok := localIdent(e); ok {
+			seen[id.Name]++
+		}
+	}
+	if se, ok := call.Fun.(*ast.SelectorExpr); ok && recvObj != nil {
+		note(se.X)
+	}
+	for _, a := range call.Args {
+		note(a)
+	}
+	set := func(obj *types.Var, actual ast.Expr) bool {
+		if obj == nil {
+			return false
+		}
+		isPtr, ok := structish(obj.Type())
+		if !ok {
+			return false
+		}
+		id, addr, ok := localIdent(actual)
+		if !ok || seen[id.Name] > 1 {
+			return false
+		}
+		at := info.TypeOf(id)
+		_, actualIsPtr := at.Underlying().(*types.Pointer)
+		text := ""
+		switch {
+		case isPtr && addr:
+			text = "(&" + id.Name + ")"
+		case isPtr && !addr && !actualIsPtr:
+			text = "(&" + id.Name + ")" // auto-address of the receiver
+		case isPtr && !addr && actualIsPtr:
+			text = id.Name
+		case !isPtr && !addr && !actualIsPtr:
+			text = id.Name
+		case !isPtr && !addr && actualIsPtr:
+			text = "(*" + id.Name + ")"
+		default:
+			return false
+		}
+		if il.assignsOrEscapes(fd, obj, isPtr) {
+			return false
+		}
+		// the caller's variable must not be shadowed inside the callee by one of its locals
+		shadow := false
+		ast.Inspect(fd.Body, func(n ast.Node) bool {
+			if d, ok := n.(*ast.Ident); ok && d.Name == id.Name {
+				if o := info.Defs[d]; o != nil {
+					shadow = true
+				}
+			}
+			return true
+		})
+		for _, p := range append([]*types.Var{recvObj}, func() []*types.Var { _, ps := il.paramObjs(fd); return ps }()...) {
+			if p != nil && p != obj && p.Name() == id.Name {
+				shadow = true
+			}
+		}
+		if shadow {
+			return false
+		}
+		if il.renames[fd] == nil {
+			il.renames[fd] = map[types.Object]string{}
+		}
+		il.renames[fd][obj] = text
+		return true
+	}
+	if se, ok := call.Fun.(*ast.SelectorExpr); ok && recvObj != nil {
+		il.substRecv = set(recvObj, se.X)
+	}
+	variadic := false
+	if fd.Type.Params != nil {
+		for _, f := range fd.Type.Params.List {
+			if _, isEl := f.Type.(*ast.Ellipsis); isEl {
+				variadic = true
+			}
+		}
+	}
+	for i, p := range params {
+		if i < len(call.Args) && !(variadic && i == len(params)-1) {
+			il.substParam[i] = set(p, call.Args[i])
+		}
+	}
+}
+
+// ---------------------------------------------------------------------------
+// scalarise: a local variable of a NEW struct type (not in the symbol baseline) that is only
+// ever used field by field - `v.f`, `(&v).f`, re-initialised as a whole with a literal - is
+// replaced by one local per field.  "Group related locals into a struct" is then undone and
+// go/ssa lifts the fields into registers again (phis, value identity), which the rules that
+// follow values rely on.  Runs in a round of its own, after helpers were expanded.
+// ---------------------------------------------------------------------------
+
+var baselineStructNames map[string]bool
+
+func (il *inliner) freshStruct(t types.Type) (*types.Named, *ast.StructType) {
+	n, ok := t.(*types.Named)
+	if !ok || n.Obj().Pkg() != il.pkg.Types {
+		return nil, nil
+	}
+	if _, isS := n.Underlying().(*types.Struct); !isS {
+		return nil, nil
+	}
+	if baselineStructNames == nil || baselineStructNames[short(n.Obj().Pkg().Path())+"."+n.Obj().Name()] {
+		return nil, nil
+	}
+	for _, f := range il.pkg.Syntax {
+		for _, d := range f.Decls {
+			gd, ok := d.(*ast.GenDecl)
+			if !ok || gd.Tok != token.TYPE {
+				continue
+			}
+			for _, sp := range gd.Specs {
+				ts := sp.(*ast.TypeSpec)
+				if il.pkg.TypesInfo.Defs[ts.Name] == types.Object(n.Obj()) {
+					if st, ok := ts.Type.(*ast.StructType); ok {
+						return n, st
+					}
+				}
+			}
+		}
+	}
+	return nil, nil
+}
+
+func (il *inliner) scalarise(fd *ast.FuncDecl) []inlineEdit {
+	info := il.pkg.TypesInfo
+	type fieldT struct{ name, typ string }
+	type cand struct {
+		v      *types.Var
+		fields []fieldT
+		ok     bool
+	}
+	cands := map[*types.Var]*cand{}
+	// candidates: local variable definitions of a fresh struct type
+	ast.Inspect(fd.Body, func(n ast.Node) bool {
+		id, ok := n.(*ast.Ident)
+		if !ok {
+			return true
+		}
+		v, ok := info.Defs[id].(*types.Var)
+		if !ok || v.IsField() {
+			return true
+		}
+		nt, st := il.freshStruct(v.Type())
+		if nt == nil {
+			return true
+		}
+		c := &cand{v: v, ok: true}
+		for _, f := range st.Fields.List {
+			if len(f.Names) == 0 {
+				c.ok = false // embedded field
+			}
+			for _, fn := range f.Names {
+				c.fields = append(c.fields, fieldT{fn.Name, il.typeText(f.Type)})
+			}
+		}
+		cands[v] = c
+		return true
+	})
+	if len(cands) == 0 {
+		return nil
+	}
+	// classify every use
+	type useT struct {
+		node ast.Node
+		kind string // sel | decl | assign
+		v    *types.Var
+		fld  string
+		lit  *ast.CompositeLit
+	}
+	var uses []useT
+	claimed := map[*ast.Ident]bool{}
+	varOf := func(e ast.Expr) (*types.Var, *ast.Ident) {
+		e = ast.Unparen(e)
+		if u, ok := e.(*ast.UnaryExpr); ok && u.Op == token.AND {
+			e = ast.Unparen(u.X)
+		}
+		id, ok := e.(*ast.Ident)
+		if !ok {
+			return nil, nil
+		}
+		if v, ok := info.Uses[id].(*types.Var); ok && cands[v] != nil {
+			return v, id
+		}
+		if v, ok := info.Defs[id].(*types.Var); ok && cands[v] != nil {
+			return v, id
+		}
+		return nil, nil
+	}
+	litOf := func(e ast.Expr, v *types.Var) *ast.CompositeLit {
+		cl, ok := ast.Unparen(e).(*ast.CompositeLit)
+		if !ok {
+			return nil
+		}
+		if !types.Identical(info.TypeOf(cl), v.Type()) {
+			return nil
+		}
+		return cl
+	}
+	ast.Inspect(fd.Body, func(n ast.Node) bool {
+		switch x := n.(type) {
+		case *ast.SelectorExpr:
+			if v, id := varOf(x.X); v != nil {
+				if sel := info.Selections[x]; sel != nil && sel.Kind() == types.FieldVal && len(sel.Index()) == 1 {
+					uses = append(uses, useT{node: x, kind: "sel", v: v, fld: x.Sel.Name})
+					claimed[id] = true
+					return false
+				}
+			}
+		case *ast.AssignStmt:
+			if len(x.Lhs) == 1 && len(x.Rhs) == 1 {
+				if id, ok := x.Lhs[0].(*ast.Ident); ok {
+					var v *types.Var
+					if x.Tok == token.DEFINE {
+						v, _ = info.Defs[id].(*types.Var)
+					} else if x.Tok == token.ASSIGN {
+						v, _ = info.Uses[id].(*types.Var)
+					}
+					if v != nil && cands[v] != nil {
+						if cl := litOf(x.Rhs[0], v); cl != nil {
+							kind := "assign"
+							if x.Tok == token.DEFINE {
+								kind = "decl"
+							}
+							uses = append(uses, useT{node: x, kind: kind, v: v, lit: cl})
+							claimed[id] = true
+							// the literal's elements are ordinary expressions: keep walking them
+							for _, e := range cl.Elts {
+								ast.Inspect(e, func(m ast.Node) bool { return true })
+							}
+							return true
+						}
+					}
+				}
+			}
+		case *ast.DeclStmt:
+			gd, ok := x.Decl.(*ast.GenDecl)
+			if !ok || gd.Tok != token.VAR || len(gd.Specs) != 1 {
+				return true
+			}
+			vs := gd.Specs[0].(*ast.ValueSpec)
+			if len(vs.Names) != 1 {
+				return true
+			}
+			v, _ := info.Defs[vs.Names[0]].(*types.Var)
+			if v == nil || cands[v] == nil {
+				return true
+			}
+			if len(vs.Values) == 0 {
+				uses = append(uses, useT{node: x, kind: "decl", v: v})
+				claimed[vs.Names[0]] = true
+			} else if len(vs.Values) == 1 {
+				if cl := litOf(vs.Values[0], v); cl != nil {
+					uses = append(uses, useT{node: x, kind: "decl", v: v, lit: cl})
+					claimed[vs.Names[0]] = true
+				}
+			}
+		}
+		return true
+	})
+	// any identifier use that was not claimed disqualifies the variable
+	ast.Inspect(fd.Body, func(n ast.Node) bool {
+		id, ok := n.(*ast.Ident)
+		if !ok || claimed[id] {
+			return true
+		}
+		if v, ok := info.Uses[id].(*types.Var); ok && cands[v] != nil {
+			cands[v].ok = false
+		}
+		if v, ok := info.Defs[id].(*types.Var); ok && cands[v] != nil {
+			cands[v].ok = false
+		}
+		return true
+	})
+	// literals must be keyed or complete-positional with call-free... any expressions are fine
+	// (evaluated once, in source order)
+	var edits []inlineEdit
+	off := func(p token.Pos) int { return il.fset.Position(p).Offset }
+	fname := func(v *types.Var, f string) string { return v.Name() + "__" + f }
+	litValues := func(c *cand, cl *ast.CompositeLit) (map[string]string, bool) {
+		vals := map[string]string{}
+		if cl == nil {
+			return vals, true
+		}
+		for i, e := range cl.Elts {
+			if kv, ok := e.(*ast.KeyValueExpr); ok {
+				k, ok := kv.Key.(*ast.Ident)
+				if !ok {
+					return nil, false
+				}
+				vals[k.Name] = il.text(kv.Value)
+			} else {
+				if i >= len(c.fields) {
+					return nil, false
+				}
+				vals[c.fields[i].name] = il.text(e)
+			}
+		}
+		return vals, true
+	}
+	done := map[*types.Var]bool{}
+	for _, u := range uses {
+		c := cands[u.v]
+		if c == nil || !c.ok {
+			continue
+		}
+		switch u.kind {
+		case "sel":
+			edits = append(edits, inlineEdit{off(u.node.Pos()), off(u.node.End()), fname(u.v, u.fld)})
+		case "decl":
+			vals, ok := litValues(c, u.lit)
+			if !ok {
+				c.ok = false
+				continue
+			}
+			var sb strings.Builder
+			for _, f := range c.fields {
+				if val, has := vals[f.name]; has {
+					sb.WriteString(fmt.Sprintf("var %s %s = %s; _ = %s; ", fname(u.v, f.name), f.typ, val, fname(u.v, f.name)))
+				} else {
+					sb.WriteString(fmt.Sprintf("var %s %s; _ = %s; ", fname(u.v, f.name), f.typ, fname(u.v, f.name)))
+				}
+			}
+			edits = append(edits, inlineEdit{off(u.node.Pos()), off(u.node.End()), sb.String()})
+			done[u.v] = true
+		case "assign":
+			vals, ok := litValues(c, u.lit)
+			if !ok {
+				c.ok = false
+				continue
+			}
+			var ls, rs []string
+			for _, f := range c.fields {
+				ls = append(ls, fname(u.v, f.name))
+				if val, has := vals[f.name]; has {
+					rs = append(rs, val)
+				} else {
+					rs = append(rs, "*new("+f.typ+")")
+				}
+			}
+			edits = append(edits, inlineEdit{off(u.node.Pos()), off(u.node.End()), strings.Join(ls, ", ") + " = " + strings.Join(rs, ", ")})
+		}
+	}
+	// drop the edits of variables that were disqualified late
+	var out []inlineEdit
+	for _, u := range uses {
+		_ = u
+	}
+	bad := map[string]bool{}
+	for v, c := range cands {
+		if !c.ok {
+			bad[v.Name()+"__"] = true
+		}
+	}
+	for _, e := range edits {
+		skip := false
+		for p := range bad {
+			if strings.Contains(e.text, p) {
+				skip = true
+			}
+		}
+		if !skip {
+			out = append(out, e)
+		}
+	}
+	if len(out) > 0 {
+		n := 0
+		for v := range done {
+			if cands[v].ok {
+				n++
+			}
+		}
+		il.scalarised += n
+	}
+	return out
 }
